@@ -6,7 +6,7 @@
 //   mut <hex> <k> <j> <how>   decode, detach child j of node k with remove|removee|clear|put (or araw_remove|araw_clear|araw_resize|araw_assign on children()), release the rest, dump the child
 //   desc <hex>                decode, then `while (first child is an element) e = e.child(0);` on the only handle, dump e
 //   deep <n> <kind>           decode a document nested n levels (0: closed, 1: closed then mismatched end tag, 2: unclosed, 3: closed around the text "x")
-//   own <ops...>              a history of DOM mutators over four handle variables (n<v> v=Xml("e"), a<v><w> v<<w, r<v><j> v.remove(j), e<v><w> v.remove(w),
+//   own <ops...>              a history of DOM mutators over four handle variables (n<v> v=Xml("e"), a<v><w> v<<w, i<v><w><j> v.insert(j,w), r<v><j> v.remove(j), e<v><w> v.remove(w),
 //                             c<v> v.clear(), k<v><w><j> v=w.child(j), s<v><w> v=w, d<v> destroy v, u<v><w> v=w.parent()); after every op per
 //                             variable "-" or <lowest variable holding the same node>/<parent: n | variable | x>/<children: variable | x>
 // tree tokens (preorder): E <hextag> <nattr> {<hexname> <hexval>} <nchildren> children... | T <hextext>
@@ -141,6 +141,7 @@ static std::string ownRun(const Toks& t)
 		case 'n': nv = new Xml(Xml("e")); break;
 		case 'a': if (v[x] && v[w]) *v[x] << *v[w]; break;
 		case 'r': if (v[x] && v[x]->numChildren() > 0) v[x]->remove(a[1] % v[x]->numChildren()); break;
+		case 'i': if (v[x] && v[w]) v[x]->insert(a[2], *v[w]); break;   // does nothing unless a[2] < numChildren
 		case 'e': if (v[x] && v[w]) v[x]->remove(*v[w]); break;   // remove(const Xml&)
 		case 'c': if (v[x]) v[x]->clear(); break;
 		case 'k': if (v[w] && v[w]->numChildren() > 0) nv = new Xml(v[w]->child(a[2] % v[w]->numChildren())); break;
